@@ -63,6 +63,8 @@ type State struct {
 	ndecls int
 	panicV *Term // non-nil while unwinding with a user-level panic value
 	trace  []string
+	// mutexes this execution of the function has released (lock.atomic: they must not be acquired again, see execCall)
+	released []PtrVal
 }
 
 type openLoop struct {
@@ -79,6 +81,7 @@ func (s *State) clone() *State {
 	n.pc = append([]Term(nil), s.pc...)
 	n.fr = s.fr.clone()
 	n.trace = append([]string(nil), s.trace...)
+	n.released = append([]PtrVal(nil), s.released...)
 	return n
 }
 
